@@ -616,7 +616,7 @@ func Check() *core.Check {
 		},
 		Families: func(tier string) []*core.Family {
 			if tier == "thorough" {
-				return []*core.Family{scanFamily(), immutabilityFamily(), largeInputsFamily(), scheduleFamily(2, false, true), scheduleFamily(1, true, true), raceFamily()}
+				return []*core.Family{scanFamily(), immutabilityFamily(), largeInputsFamily(), scheduleFamily(2, false, true), raceFamily(), scheduleFamily(1, true, true)}
 			}
 			return []*core.Family{scanFamily(), immutabilityFamily(), largeInputsFamily(), scheduleFamily(2, false, false), raceFamily()}
 		},
